@@ -524,6 +524,35 @@ func c14Kinds(defs []*c14Def) (kind map[string]string, single map[string]string)
 	return
 }
 
+// the classification op's expected line
+func c14ExpectClassify(s *c14Schema) string {
+	defs := s.defs()
+	kind, _ := c14Kinds(defs)
+	groups := map[string]map[string][]string{"enum": {}, "single": {}, "iface": {}}
+	for _, d := range defs {
+		if !d.Func {
+			k := kind[d.Result]
+			groups[k][d.Result] = append(groups[k][d.Result], c14Esc(d.Name))
+		}
+	}
+	show := func(m map[string][]string) string {
+		var keys []string
+		for k := range m {
+			keys = append(keys, k)
+		}
+		sort.Strings(keys)
+		var parts []string
+		for _, k := range keys {
+			parts = append(parts, c14Esc(k)+":"+strings.Join(m[k], ","))
+		}
+		if len(parts) == 0 {
+			return "-"
+		}
+		return strings.Join(parts, ";")
+	}
+	return fmt.Sprintf("enums=%s singles=%s types=%s", show(groups["enum"]), show(groups["single"]), show(groups["iface"]))
+}
+
 func c14ExpectType(t string, vec bool, kind, single map[string]string) string {
 	var g string
 	switch t {
